@@ -70,6 +70,36 @@ CLAIMS = {
         "Floating-point rounding within one ulp of integers is not decided; numpy floor/mod/where semantics as tabulated.",
         "DESIGN.md section 3 (C16)",
     ),
+    "C05": (
+        "path-sensitive abstract interpretation with an evaluated-at domain (every value derived from compute_logw_and_logz(B) carries the identity of B; helpers and closures inlined, loops unrolled once), bracket/midpoint typing, monotonicity table for the two-mode bisection, who-may-write and dominance analysis of the pipeline",
+        "Static decision over all enumerated paths that the recorded beta, the weights handed on, the ESS and logZ refer to one temperature; that the ESS-limit search only returns a beta supported by an observed ESS >= target test (or the current beta); that brackets only move to midpoints and returns are bracket members (beta in [beta_prev, 1]); that only the reweighting step writes beta/ess/iter and the pipeline runs each step once, in order, with the right data wiring.",
+        "Assumes ESS non-increasing / volume metric non-decreasing in beta (the declared monotonicity); numerical ESS floor and bisection convergence not decided.",
+        "DESIGN.md section 3 (C05)",
+    ),
+    "C15": (
+        "loop-bound and net-growth rule for the split loop, dominance of the two-sided minimum-size test, partition/label-range structure, normalisation idiom, homogeneity-degree typing of the weighted EM under rescaling of sample weights (interprocedural, inlined)",
+        "Static decision of the structural clauses: cap = constructor argument + unconditional counter + one net cluster per iteration; both children tested against min_points; complementary label selections by a 2-component model; labels by enumeration and arg-reduction over n_clusters_ columns; M-step weights normalised; no absolute constant meets an un-normalised sample weight.",
+        "PSD-ness, means inside the bounding box and weight-replication equivalence are numerical and not decided.",
+        "DESIGN.md section 3 (C15)",
+    ),
+    "C18": (
+        "validation-table rule (each documented constraint has an error site whose path condition is exactly the documented violation), raise/validate must-pass-through, constructor call-graph scan for user callables, enum agreement between validated literals and dispatched literals traced by provenance to configuration fields",
+        "Static decision that each of the documented invalid-configuration classes is rejected during construction before any user callable runs, and that accepted kernel/resampler names agree with the run-time dispatchers.",
+        "'Every valid combination runs' is a run-time statement, not decided (instances decided under C13.b, C14.a/e).",
+        "DESIGN.md section 3 (C18)",
+    ),
+    "C19": (
+        "must-pass-through of the non-finite-dof guard, provenance of the fallback argument at every internal factory call site, homogeneity-degree typing of the Student-t fit under rescaling of the data, index-space agreement of resampling indices",
+        "Static decision that fitted dof always pass the non-finite guard and fall back to the configured constant; that location/scale/nu have degrees 1/2/0 with no absolute constant mixed into scaled quantities; that cluster-local resampling indices only subscript cluster-local arrays.",
+        "Per-coordinate/permutation equivariance, bounding-box containment, SPD-ness and parameter recovery are numerical and not decided (observation: the nu update never leaves the Gaussian limit on this tree, see DESIGN.md).",
+        "DESIGN.md section 3 (C19)",
+    ),
+    "C20": (
+        "structural trimming contract (mask identity, upper set, loop-exit guard), homogeneity-degree typing under rescaling of weights with an overflow-hazard rule, power-sum algebra (sympy) proving ESS = S1^2/S2, translation typing of the volume metric",
+        "Static decision that samples and weights are trimmed by one mask = weights >= percentile threshold, that the search loop can only be left where the ESS-ratio test holds, that every weight utility is scale invariant without powers of un-normalised weights, that every ESS is S1^2/S2 of its vector (hence in [1, N], = N for uniform weights, shift independent), and that the volume metric's covariance is formed from centred samples.",
+        "Invariance under general linear maps and floating-point conditioning are not decided.",
+        "DESIGN.md section 3 (C20)",
+    ),
 }
 
 NOT_APPLICABLE = {
